@@ -6,4 +6,10 @@ import (
 )
 
 // Native counterpart of the engine stub (*client).SendRPC => vMetaSendRPC.
-func (c *client) SendRPC(rpc hrpc.Call) (proto.Message, error) { return vMetaSendRPC(c, rpc) }
+// (a property's native build cuts per property; jobs that do not script hbase:meta run the real one)
+func (c *client) SendRPC(rpc hrpc.Call) (proto.Message, error) {
+	if vMeta == nil {
+		return c.SendRPCOrig(rpc)
+	}
+	return vMetaSendRPC(c, rpc)
+}
